@@ -96,17 +96,21 @@ def plan_c06(tier, seed, index):
 def plan_c07(tier, seed, index):
     P = []
     us = [["crc32c_slice16", 0, 2]]
-    hs = [("c07_step_len1_i1", 1, 1), ("c07_step_len2_i1", 2, 1), ("c07_step_len3_i1", 3, 1), ("c07_step_len4_i0", 4, 0)]
+    hs = [("c07_step_len1_i1", 1, 1, True, 1200), ("c07_step_len2_i1", 2, 1, True, 2400), ("c07_step_len3_i1", 3, 1, False, 2400)]
     if tier == "thorough":
-        hs += [("c07_step_len4_i2", 4, 2), ("c07_step_len8_i0", 8, 0)]
-    for (h, l, i) in hs:
+        hs += [("c07_step_len4_i0", 4, 0, False, 3600), ("c07_step_len4_i2", 4, 2, False, 7200), ("c07_step_len8_i0", 8, 0, False, 7200)]
+    for (h, l, i, core, cap) in hs:
         P.append(ob("c07_sink::" + h,
                     "write_all of %d symbolic bytes through CountingWriter over a sink with a fresh symbolic acceptance length per call and up to %d Interrupted: count == accepted, checksum == checksum of accepted bytes, from an arbitrary prior (count, checksum) state" % (l, i),
-                    timeout=2400, mem_gb=12, unwindset=us, core=(l <= 3),
+                    timeout=cap, mem_gb=12, unwindset=us, core=core,
                     functions=["fst::raw::counting_writer::CountingWriter::write", "std::io::Write::write_all (default)", "fst::raw::crc32::CheckSummer::update"],
                     bounds="buffer length %d, <=%d Interrupted, every acceptance schedule" % (l, i)))
-    P.append(ob("c07_sink::c07_primitives_u32", "io_write_u32_le through the chunky sink: sink receives exactly the LE bytes; count and checksum agree",
-                timeout=1500, mem_gb=12, unwindset=us, functions=["fst::bytes::io_write_u32_le"], bounds="all u32, every schedule"))
+    P.append(ob("c07_sink::c07_primitives_le_bytes", "io_write_u64_le / io_write_u32_le / pack_uint_in hand write_all exactly the little-endian bytes",
+                timeout=900, mem_gb=8, functions=["fst::bytes::io_write_u64_le", "fst::bytes::io_write_u32_le", "fst::bytes::pack_uint_in"],
+                bounds="all u64, all legal widths", covers_required=False))
+    if tier == "thorough":
+        P.append(ob("c07_sink::c07_primitives_u32", "io_write_u32_le through the chunky sink: sink receives exactly the LE bytes; count and checksum agree",
+                    timeout=7200, mem_gb=16, unwindset=us, functions=["fst::bytes::io_write_u32_le"], bounds="all u32, every schedule", core=False))
     P.append(twin("c07_sink::c07_twin_must_fail", "vacuity twin: a short write is possible", timeout=900, mem_gb=8, unwindset=us))
     return P
 
